@@ -1,5 +1,358 @@
 package main
 
-func runConc(tier string, seed int64) int { return 0 }
+import (
+	"fmt"
+	"math/rand"
+	"os"
+	"reflect"
+	"runtime"
+	"sort"
+	"strings"
+	"sync"
+	"sync/atomic"
 
-func exhaustC05(maxh int) int { return 0 }
+	"github.com/openacid/low/bitmap"
+	"github.com/openacid/low/bitstr"
+	"github.com/openacid/low/bitword"
+	"github.com/openacid/low/bmtree"
+	"github.com/openacid/low/sigbits"
+)
+
+// ---------------------------------------------------------------- C19 runtime layer
+//
+// Shared inputs are built once. A fixed list of calls (closures over the shared inputs, each returning a
+// canonical string) is evaluated sequentially, then by many goroutines at once in different orders.
+// Every concurrent result must equal the sequential one; the shared inputs and every package-level table
+// are compared with snapshots taken before; built with -race, any conflicting access is reported by the
+// race detector (exit code 66).
+
+type call struct {
+	name string
+	f    func() string
+}
+
+type snapshot struct {
+	name string
+	get  func() interface{}
+	was  interface{}
+}
+
+func deepCopy(v interface{}) interface{} {
+	rv := reflect.ValueOf(v)
+	switch rv.Kind() {
+	case reflect.Slice:
+		if rv.IsNil() {
+			return v
+		}
+		c := reflect.MakeSlice(rv.Type(), rv.Len(), rv.Len())
+		for i := 0; i < rv.Len(); i++ {
+			c.Index(i).Set(reflect.ValueOf(deepCopy(rv.Index(i).Interface())))
+		}
+		return c.Interface()
+	case reflect.String:
+		// force a copy of the bytes: a string header copy would alias the same memory
+		return string(append([]byte(nil), v.(string)...))
+	}
+	return v
+}
+
+func safeCall(f func() string) (s string) {
+	defer func() {
+		if r := recover(); r != nil {
+			s = "PANIC"
+			if os.Getenv("LOWHARNESS_DEBUG") != "" {
+				s = fmt.Sprint("PANIC:", r)
+			}
+		}
+	}()
+	return f()
+}
+
+func runConc(tier string, seed int64) int {
+	r := rand.New(rand.NewSource(seed))
+	g := &G{r: r, tier: tier}
+	nBitmaps, nQueries := 6, 40
+	rounds, workers := 3, 8
+	if tier == "thorough" {
+		nBitmaps, nQueries, rounds, workers = 20, 120, 8, 16
+	}
+
+	var calls []call
+	var snaps []snapshot
+	add := func(name string, f func() string) { calls = append(calls, call{name, f}) }
+	share := func(name string, get func() interface{}) {
+		snaps = append(snaps, snapshot{name: name, get: get, was: deepCopy(get())})
+	}
+
+	// package-level tables
+	share("bitmap.Mask", func() interface{} { return bitmap.Mask[:] })
+	share("bitmap.RMask", func() interface{} { return bitmap.RMask[:] })
+	share("bitmap.MaskUpto", func() interface{} { return bitmap.MaskUpto[:] })
+	share("bitmap.RMaskUpto", func() interface{} { return bitmap.RMaskUpto[:] })
+	share("bitmap.Bit", func() interface{} { return bitmap.Bit[:] })
+	share("bitmap.RBit", func() interface{} { return bitmap.RBit[:] })
+	share("bitmap.select8Lookup", func() interface{} { return bitmap.VerifSelect8Lookup() })
+	share("bmtree.idxToPath", func() interface{} { return bmtree.VerifIdxToPath() })
+	share("bitword.BitWord", func() interface{} {
+		ks := []string{}
+		for k, v := range bitword.BitWord {
+			ks = append(ks, fmt.Sprintf("%d:%+v", k, reflect.ValueOf(v).Elem()))
+		}
+		sort.Strings(ks)
+		return strings.Join(ks, ";")
+	})
+
+	// bitmap queries over shared bitmaps and indexes
+	for b := 0; b < nBitmaps; b++ {
+		ws := g.words(1+g.intn(12), b%2 == 0)
+		r64 := bitmap.IndexRank64(ws)
+		r128 := bitmap.IndexRank128(ws)
+		s32 := bitmap.IndexSelect32(ws)
+		s32b, r64t := bitmap.IndexSelect32R64(ws)
+		n := popcount(ws)
+		L := 64 * len(ws)
+		id := fmt.Sprintf("bm%d", b)
+		share(id+".words", func() interface{} { return ws })
+		share(id+".r64", func() interface{} { return r64 })
+		share(id+".r128", func() interface{} { return r128 })
+		share(id+".s32", func() interface{} { return s32 })
+		share(id+".s32b", func() interface{} { return s32b })
+		share(id+".r64t", func() interface{} { return r64t })
+		add(id+".IndexRank64", func() string { return showI32s(bitmap.IndexRank64(ws, true)) })
+		add(id+".IndexRank128", func() string { return showI32s(bitmap.IndexRank128(ws)) })
+		add(id+".IndexSelect32", func() string { return showI32s(bitmap.IndexSelect32(ws)) })
+		add(id+".ToArray", func() string { return showI32s(bitmap.ToArray(ws)) })
+		for q := 0; q < nQueries; q++ {
+			i := int32(g.intn(L))
+			e := i + int32(g.intn(L-int(i)+1))
+			add(id+".Rank64", func() string { a, b := bitmap.Rank64(ws, r64, i); return fmt.Sprint(a, b) })
+			add(id+".Rank128", func() string { a, b := bitmap.Rank128(ws, r128, i); return fmt.Sprint(a, b) })
+			add(id+".NextOne", func() string { return fmt.Sprint(bitmap.NextOne(ws, i, e)) })
+			if e >= 1 {
+				add(id+".PrevOne", func() string { return fmt.Sprint(bitmap.PrevOne(ws, i, e)) })
+			}
+			add(id+".Get", func() string {
+				return fmt.Sprint(bitmap.Get(ws, i), bitmap.Get1(ws, i), bitmap.SafeGet(ws, i), bitmap.SafeGet1(ws, i-100))
+			})
+			add(id+".Slice", func() string { return showU64s(bitmap.Slice(ws, i, e)) })
+			w := int32(1) << uint(g.intn(7))
+			gi := int32(g.intn(L / int(w)))
+			add(id+".Getw", func() string { return fmt.Sprint(bitmap.Getw(ws, gi, w)) })
+			if n > 0 {
+				k := int32(g.intn(n))
+				add(id+".Select32", func() string { a, b := bitmap.Select32(ws, s32, k); return fmt.Sprint(a, b) })
+				add(id+".Select32R64", func() string { a, b := bitmap.Select32R64(ws, s32b, r64t, k); return fmt.Sprint(a, b) })
+			}
+		}
+		vs := g.words(5, false)
+		share(id+".joinvals", func() interface{} { return vs })
+		add(id+".Join", func() string { return showU64s(bitmap.Join(vs, 16)) })
+	}
+
+	// strings / keys
+	for k := 0; k < nBitmaps; k++ {
+		keyBytes := g.sortedKeys(2+g.intn(12), k%4)
+		keys := make([]string, len(keyBytes))
+		for i, b := range keyBytes {
+			keys[i] = string(b)
+		}
+		id := fmt.Sprintf("keys%d", k)
+		share(id, func() interface{} { return keys })
+		sb := sigbits.New(keys)
+		add(id+".FirstDiffBits", func() string { return showI32s(sigbits.FirstDiffBits(keys)) })
+		add(id+".ShardByPrefix", func() string { a, b := sigbits.ShardByPrefix(keys, 3); return showI32s(a) + ";" + showI32s(b) })
+		if len(keys) >= 2 {
+			add(id+".CountPrefixes", func() string { a, b := sb.CountPrefixes(0, int32(len(keys)), 9); return fmt.Sprint(a) + showI32s(b) })
+		}
+		add(id+".PathsOf", func() string { return showU64s(bmtree.PathsOf(keys, 3, 11, true)) })
+		for q := 0; q < nQueries/4; q++ {
+			s := keys[g.intn(len(keys))]
+			s2 := keys[g.intn(len(keys))]
+			from := int32(g.intn(8*len(s) + 3))
+			wd := int32(g.intn(33))
+			add(id+".FromStr32", func() string { a, b := bitmap.FromStr32(s, from, from+wd); return fmt.Sprint(a, b) })
+			for _, n := range []int{1, 2, 4, 8} {
+				bw := bitword.BitWord[n]
+				add(id+".bitword", func() string {
+					f := bw.FromStr(s)
+					out := showBytes(f) + bw.ToStr(f) + fmt.Sprint(bw.FirstDiff(s, s2, 0, -1))
+					if len(s) > 0 {
+						out += fmt.Sprint(bw.Get(s, 0))
+					}
+					return out + fmt.Sprint(bw.FromStrs([]string{s, s2})) + fmt.Sprint(bw.ToStrs([][]byte{f}))
+				})
+			}
+			if len(s) > 0 && len(s2) > 0 {
+				to := int32(1 + g.intn(8*len(s)))
+				to2 := int32(1 + g.intn(8*len(s2)))
+				e1 := bitstr.New(s, 0, to)
+				e2 := bitstr.New(s2, 0, to2)
+				plain := []byte(s2)
+				share(id+fmt.Sprintf(".enc%d", q), func() interface{} { return [][]byte{e1, e2, plain} })
+				add(id+".bitstr", func() string {
+					return fmt.Sprint(bitstr.Cmp(e1, e2), bitstr.CmpUpto(plain, e1), bitstr.StrCmpUpto(s2, e1), bitstr.Len(e1),
+						showBytes(bitstr.New(s, 0, to)))
+				})
+			}
+		}
+	}
+
+	// bmtree
+	for k := 0; k < nBitmaps; k++ {
+		h := 1 + g.intn(10)
+		t := g.randMask(h)
+		id := fmt.Sprintf("tree%d", k)
+		bm := g.words((int(t)+63)/64, false)
+		share(id+".bm", func() interface{} { return bm })
+		add(id+".Decode", func() string { return showU64s(bmtree.Decode(t, bm)) })
+		add(id+".AllPaths", func() string { return showU64s(bmtree.AllPaths(t, 0, 1<<63)) })
+		for q := 0; q < nQueries/2; q++ {
+			l, pfx := g.randNode(h)
+			p := mkPath(h, l, pfx)
+			add(id+".PathToIndexLoose", func() string { a, b := bmtree.PathToIndexLoose(t, p); return fmt.Sprint(a, b) })
+			if t&(1<<uint(l)) != 0 {
+				add(id+".PathToIndex", func() string { return fmt.Sprint(bmtree.PathToIndex(t, p)) })
+			}
+			hh := int32(g.intn(31))
+			idx := int32(g.r.Int63n(int64(1)<<uint(hh+1) - 1))
+			add(id+".IndexToPath", func() string { return fmt.Sprint(bmtree.IndexToPath(hh, idx), bmtree.PathStr(p), bmtree.PathLen(p)) })
+		}
+	}
+
+	// sequential reference
+	want := make([]string, len(calls))
+	for i, c := range calls {
+		want[i] = safeCall(c.f)
+	}
+
+	// concurrent runs, every worker in its own order
+	var mismatches int64
+	var firstMismatch atomic.Value
+	var wg sync.WaitGroup
+	start := make(chan struct{})
+	for w := 0; w < workers; w++ {
+		wg.Add(1)
+		perm := rand.New(rand.NewSource(seed*131 + int64(w))).Perm(len(calls))
+		go func(perm []int) {
+			defer wg.Done()
+			<-start
+			for round := 0; round < rounds; round++ {
+				for _, i := range perm {
+					got := safeCall(calls[i].f)
+					if got != want[i] {
+						if atomic.AddInt64(&mismatches, 1) == 1 {
+							firstMismatch.Store(fmt.Sprintf("%s: concurrent %q, sequential %q", calls[i].name, got, want[i]))
+						}
+					}
+				}
+				runtime.Gosched()
+			}
+		}(perm)
+	}
+	close(start)
+	wg.Wait()
+
+	modified := []string{}
+	for _, s := range snaps {
+		if !reflect.DeepEqual(s.get(), s.was) {
+			modified = append(modified, s.name)
+		}
+	}
+	names := map[string]int{}
+	for _, c := range calls {
+		names[c.name[strings.Index(c.name, ".")+1:]]++
+	}
+	fns := []string{}
+	for n := range names {
+		fns = append(fns, n)
+	}
+	sort.Strings(fns)
+	fmt.Printf("conc calls=%d workers=%d rounds=%d executions=%d shared_objects=%d mismatches=%d modified=%s functions=%s\n",
+		len(calls), workers, rounds, len(calls)*workers*rounds, len(snaps), mismatches, strings.Join(append(modified, "-"), ","), strings.Join(fns, ","))
+	if m := firstMismatch.Load(); m != nil {
+		fmt.Printf("conc first-mismatch %s\n", m)
+	}
+	if mismatches > 0 || len(modified) > 0 {
+		return 3
+	}
+	return 0
+}
+
+// ---------------------------------------------------------------- C05 exhaustive run on the real code
+//
+// every (height, index) pair: IndexToPath gives a well-formed path whose PathToIndex on the full tree is index
+
+func exhaustC05(maxh int) int {
+	type res struct {
+		h     int
+		pairs int64
+		bad   string
+	}
+	jobs := make(chan [3]int64, 1024)
+	out := make(chan res, 1024)
+	var wg sync.WaitGroup
+	for w := 0; w < runtime.NumCPU(); w++ {
+		wg.Add(1)
+		go func() {
+			defer wg.Done()
+			for j := range jobs {
+				h, lo, hi := int32(j[0]), j[1], j[2]
+				full := int32(int64(1)<<uint(h+1) - 1)
+				r := res{h: int(h)}
+				for i := lo; i < hi; i++ {
+					p := bmtree.IndexToPath(h, int32(i))
+					r.pairs++
+					mask := uint32(p)
+					bitsv := uint32(p >> 32)
+					l := bmtree.PathLen(p)
+					ok := p&0x8000000080000000 == 0 && l <= h &&
+						(mask == 0 || (mask == (uint32(1)<<uint(l)-1)<<uint(h-l))) && bitsv&^mask == 0
+					if ok {
+						ok = int64(bmtree.PathToIndex(full, p)) == i
+					}
+					if !ok && r.bad == "" {
+						r.bad = fmt.Sprintf("i2p %d %d", h, i)
+					}
+				}
+				out <- r
+			}
+		}()
+	}
+	go func() {
+		for h := 0; h <= maxh; h++ {
+			n := int64(1)<<uint(h+1) - 1
+			step := int64(1 << 22)
+			for lo := int64(0); lo < n; lo += step {
+				hi := lo + step
+				if hi > n {
+					hi = n
+				}
+				jobs <- [3]int64{int64(h), lo, hi}
+			}
+		}
+		close(jobs)
+		wg.Wait()
+		close(out)
+	}()
+	var total int64
+	bad := []string{}
+	for r := range out {
+		total += r.pairs
+		if r.bad != "" {
+			bad = append(bad, r.bad)
+		}
+	}
+	sort.Strings(bad)
+	fmt.Printf("exhaust-c05 heights=0..%d pairs=%d failing=%d\n", maxh, total, len(bad))
+	for i, b := range bad {
+		if i < 5 {
+			fmt.Printf("exhaust-c05 failing-case %s\n", b)
+		}
+	}
+	if len(bad) > 0 {
+		return 1
+	}
+	return 0
+}
+
+var _ = os.Exit
